@@ -347,6 +347,7 @@ def trace_truncation(chk, op, rows_tie):
 def e4(chk, op):
     repo = op.repo
     n = 0
+    summary_done = []
     for k in sorted(op.reach):
         fi = op.g.funcs[k]
         if fi.module.name.endswith(".testing"):
@@ -380,14 +381,18 @@ def e4(chk, op):
                     collected = stored and later_raise
                 # (b') the caught error leaves the function as a value (yielded / returned / handed to a call): whether it surfaces is
                 # decided where it can be - for the summary reader by evaluating it on corrupted texts (same corpus as C14-S9)
+                if not only_cache and not collected and fi.module.name.startswith("ceos_alos2.summary"):
+                    # a handler of the summary reader that is not in the collect-and-raise form (the error leaves as a value, the
+                    # loop lives in a helper, ...): whether a damaged summary raises is decided by evaluating the reader on
+                    # corrupted texts (same corpus as C14-S9)
+                    if not summary_done:
+                        from .c14 import summary_eval
+                        summary_eval(chk, repo, repo.module("ceos_alos2.summary"), rule="C18-E4")
+                        summary_done.append(1)
+                    continue
                 if not only_cache and not collected and h.name:
                     escapes = any(isinstance(x, (ast.Yield, ast.Return)) and x.value is not None and any(isinstance(v, ast.Name) and v.id in _names_holding(h, fi) for v in ast.walk(x.value))
                                   for x in fi.own_nodes())
-                    if escapes and fi.module.name == "ceos_alos2.summary":
-                        from .c14 import summary_eval
-                        before = len(chk.violations) if hasattr(chk, "violations") else None
-                        summary_eval(chk, repo, fi.module, rule="C18-E4")
-                        continue
                     if escapes:
                         raise AnalysisError(f"{where}: `except {', '.join(map(str, cname))}` hands the error on as a value; whether it is raised later is not decided")
                 # (c) import-compat shim: except NameError/ImportError around a bare name
